@@ -323,6 +323,12 @@ def hexs(b):
 def generic_replay(ctx, path):
     """Re-runs the script of a replay file on the current tree and on the model."""
     payload = json.load(open(path))
+    if "script" not in payload:
+        # no operation script (system-level scenario or a broken obligation): show it and re-run the check itself
+        print(json.dumps({k: payload[k] for k in payload if k not in ("audit",)}, indent=1)[:3000])
+        import importlib
+        mod = importlib.import_module("checklib." + ctx.prop.lower())
+        return mod.run(ctx)
     build(ctx, [])
     port = payload.get("port", "pure")
     script = payload.get("script", [])
